@@ -341,3 +341,19 @@ def param_default(fn: ast.AST, p: str) -> Optional[ast.AST]:
             v = st.value
             return v.body if norm(v.orelse) == p else v.orelse
     return None
+
+
+def helper_by_role(mi, user: FuncInfo, has_role) -> List[FuncInfo]:
+    """functions of module `mi` that play a role for `user` (a nested function of it, a function it calls by name, or a helper extracted
+    after the pinned tree whose body was substituted at its call sites) and satisfy `has_role(FuncInfo)`; the rule names the role by what
+    the function contains, not by its qualified name"""
+    out = []
+    called = {call_name(c) for c in walk_local(user.node, into_nested=True) if isinstance(c, ast.Call)}
+    for q, fi in mi.funcs.items():
+        if fi.node is user.node:
+            continue
+        nm = fi.node.name
+        related = q.startswith(user.qual + ".<locals>.") or nm in called or any(x.split(" ")[0] == nm for x in mi.inlined)
+        if related and has_role(fi):
+            out.append(fi)
+    return out
